@@ -69,21 +69,22 @@ def add_corners_if_it_is_an_uri(a_candidate_uri):
 def decide_literal_type(a_literal, base_namespace=None):
     if there_is_arroba_after_last_quotes(a_literal):
         return LANG_STRING_TYPE
-    elif "\"^^" not in a_literal:
+    type_mark = a_literal[a_literal.rfind('"'):]  # What follows the lexical form. The content must not decide the type
+    if "\"^^" not in type_mark:
         return STRING_TYPE
-    elif "xsd:" in a_literal:
-        return XSD_NAMESPACE + a_literal[a_literal.find("xsd:") + 4:]
-    elif "rdf:" in a_literal:
-        return RDF_SYNTAX_NAMESPACE + a_literal[a_literal.find("rdf:")+ 4:]
-    elif "dt:" in a_literal:
-        return DT_NAMESPACE + a_literal[a_literal.find("dt:")+ 3:]
-    elif "geo:" in a_literal:
-        return OPENGIS_NAMESPACE + a_literal[a_literal.find("geo:") + 4:]
-    elif XSD_NAMESPACE in a_literal or RDF_SYNTAX_NAMESPACE in a_literal \
-            or DT_NAMESPACE in a_literal or OPENGIS_NAMESPACE in a_literal:
-        return a_literal[a_literal.find("\"^^")+4:-1]
-    elif a_literal.strip().endswith(">"):
-        candidate_type = a_literal[a_literal.find("\"^^") + 4:-1]  # plain uri, no corners
+    elif "xsd:" in type_mark:
+        return XSD_NAMESPACE + type_mark[type_mark.find("xsd:") + 4:]
+    elif "rdf:" in type_mark:
+        return RDF_SYNTAX_NAMESPACE + type_mark[type_mark.find("rdf:")+ 4:]
+    elif "dt:" in type_mark:
+        return DT_NAMESPACE + type_mark[type_mark.find("dt:")+ 3:]
+    elif "geo:" in type_mark:
+        return OPENGIS_NAMESPACE + type_mark[type_mark.find("geo:") + 4:]
+    elif XSD_NAMESPACE in type_mark or RDF_SYNTAX_NAMESPACE in type_mark \
+            or DT_NAMESPACE in type_mark or OPENGIS_NAMESPACE in type_mark:
+        return type_mark[type_mark.find("\"^^")+4:-1]
+    elif type_mark.strip().endswith(">"):
+        candidate_type = type_mark[type_mark.find("\"^^") + 4:-1]  # plain uri, no corners
         if base_namespace is not None and not candidate_type.startswith("http"):
             return base_namespace + candidate_type
         return candidate_type
